@@ -115,5 +115,5 @@ PN1 == Nd(<<J_obj, J_arr>>, "lf", FALSE)
 PN2 == Nd(<<J_str, J_one>>, "crlf", TRUE)
 PairFamily ==
   {[a |-> PA1, b |-> PB1], [a |-> PA1, b |-> PA1], [a |-> PA2, b |-> PB1], [a |-> PN1, b |-> PN2], [a |-> PA1, b |-> PN2]}
-  \cup (IF Tier = 1 THEN {} ELSE {[a |-> PB2, b |-> PA2], [a |-> PA2, b |-> PB2], [a |-> PN2, b |-> PA1], [a |-> PB1, b |-> PA1]})
+  \cup (IF Tier = 1 THEN {} ELSE {[a |-> PB2, b |-> PB1], [a |-> PN2, b |-> PA1], [a |-> PB1, b |-> PA1]})
 =============================================================================
